@@ -93,12 +93,12 @@ theorem clip_convex_open_strict (hs : List HP) (s : Seg) (lo hi : Rat)
     simp only at h
     split_ifs at h with hcond
     obtain ⟨rfl, rfl⟩ := Prod.mk.inj (Option.some.inj h)
-    refine ⟨hcond.1, rfl, ?_⟩
+    refine ⟨hcond.2.1, rfl, ?_⟩
     intro t ht1 ht2 g hg
-    have hlo := (clip_convex_sound hs s l u hc l (le_refl _) hcond.1.le).2.2 g hg
-    have hhi := (clip_convex_sound hs s l u hc u hcond.1.le (le_refl _)).2.2 g hg
+    have hlo := (clip_convex_sound hs s l u hc l (le_refl _) hcond.2.1.le).2.2 g hg
+    have hhi := (clip_convex_sound hs s l u hc u hcond.2.1.le (le_refl _)).2.2 g hg
     have hmid : g.eval (s.at ((l + u) / 2)) < 0 := by
-      have := hcond.2
+      have := hcond.2.2
       simp only [strictlyInside, List.all_eq_true, decide_eq_true_eq] at this
       exact this g hg
     rw [eval_at] at hlo hhi hmid ⊢
@@ -109,19 +109,23 @@ theorem clip_convex_open_strict (hs : List HP) (s : Seg) (lo hi : Rat)
     · subst hd; linarith
     · have := mul_lt_mul_of_pos_right ht2 hd; linarith
 
-/-- what the convention drops: an interval reduced to a point, or a piece along which some
-    half-plane function vanishes identically (the segment runs in the boundary line) -/
+/-- what the convention drops: a segment of zero length, an interval reduced to a point, or a
+    piece along which some half-plane function vanishes identically (the segment runs in the
+    boundary line) -/
 theorem clip_convex_dropped_on_boundary (hs : List HP) (s : Seg) (lo hi : Rat)
     (hc : clipConvex hs s = some (lo, hi)) (ho : clipConvexOpen hs s = none) :
-    lo = hi ∨ ∃ g ∈ hs, ∀ t, g.eval (s.at t) = 0 := by
+    s.p = s.q ∨ lo = hi ∨ ∃ g ∈ hs, ∀ t, g.eval (s.at t) = 0 := by
   have hle := (clip_convex_none_or_nonempty hs s).2 lo hi hc
+  by_cases hpq : s.p = s.q
+  · left; exact hpq
+  right
   by_cases hlt : lo < hi
   · right
     unfold clipConvexOpen at ho
     rw [hc] at ho
     simp only at ho
     split_ifs at ho with hcond
-    have hns : ¬ (strictlyInside hs (s.at ((lo + hi) / 2)) = true) := fun h => hcond ⟨hlt, h⟩
+    have hns : ¬ (strictlyInside hs (s.at ((lo + hi) / 2)) = true) := fun h => hcond ⟨hpq, hlt, h⟩
     simp only [strictlyInside, List.all_eq_true, decide_eq_true_eq, not_forall] at hns
     obtain ⟨g, hg, hge⟩ := hns
     refine ⟨g, hg, ?_⟩
@@ -346,6 +350,9 @@ example : clipConvexOpen (halfPlanes sq) ⟨⟨-1, 0⟩, ⟨1, 0⟩⟩ = none :=
 -- touching the corner (2,2) from outside: a single point, dropped
 example : clipConvex (halfPlanes sq) ⟨⟨1, 3⟩, ⟨3, 1⟩⟩ = some (1 / 2, 1 / 2) := by decide +kernel
 example : clipConvexOpen (halfPlanes sq) ⟨⟨1, 3⟩, ⟨3, 1⟩⟩ = none := by decide +kernel
+-- a segment of zero length inside the square: a point of the region, dropped by the convention
+example : clipConvex (halfPlanes sq) ⟨⟨1, 1⟩, ⟨1, 1⟩⟩ = some (0, 1) := by decide +kernel
+example : clipConvexOpen (halfPlanes sq) ⟨⟨1, 1⟩, ⟨1, 1⟩⟩ = none := by decide +kernel
 -- missing the square
 example : clipConvex (halfPlanes sq) ⟨⟨3, 0⟩, ⟨4, 5⟩⟩ = none := by decide +kernel
 -- crossing the notch of the U: two pieces
